@@ -3,7 +3,7 @@ use crate::errors::{Result, SvgdxError};
 use crate::events::InputEvent;
 use crate::expression::eval_attr;
 use crate::position::{BoundingBox, Size};
-use crate::types::{attr_split, extract_urlref, strp, AttrMap, ClassList, ElRef};
+use crate::types::{attr_split, extract_urlref, strp, AttrMap, ClassList, ElRef, OrderIndex};
 use crate::TransformConfig;
 
 use std::cell::RefCell;
@@ -182,6 +182,18 @@ impl ElementMap for TransformerContext {
     }
 
     fn get_element_bbox(&self, el: &SvgElement) -> Result<Option<BoundingBox>> {
+        self.element_bbox_following_clips(el, &mut Vec::new())
+    }
+}
+
+impl TransformerContext {
+    /// Bounding box of an element, limited by its clip path; `clips` holds the clip
+    /// paths being followed (a clip path may itself be clipped - but not by itself).
+    fn element_bbox_following_clips(
+        &self,
+        el: &SvgElement,
+        clips: &mut Vec<OrderIndex>,
+    ) -> Result<Option<BoundingBox>> {
         let target_el = el.get_target_element(self)?;
         let mut el_bbox = target_el.bbox()?;
 
@@ -210,10 +222,18 @@ impl ElementMap for TransformerContext {
             let clip_el = self
                 .get_element(&clip_id)
                 .ok_or(SvgdxError::ReferenceError(clip_id))?;
-            if let ("clipPath", Some(clip_bbox)) =
-                (clip_el.name.as_str(), self.get_element_bbox(clip_el)?)
-            {
-                el_bbox = bbox.intersect(&clip_bbox);
+            if clip_el.name == "clipPath" {
+                if clips.contains(&clip_el.order_index) {
+                    return Err(SvgdxError::CircularRefError(format!(
+                        "clip-path {clip_path} leads back to itself"
+                    )));
+                }
+                clips.push(clip_el.order_index.clone());
+                let clip_bbox = self.element_bbox_following_clips(clip_el, clips);
+                clips.pop();
+                if let Some(clip_bbox) = clip_bbox? {
+                    el_bbox = bbox.intersect(&clip_bbox);
+                }
             }
         }
 
